@@ -96,7 +96,7 @@ def run(ctx):
         sizes = X.ids_of(e)
         total = sum(sizes.values())
         envs = X.all_envs(sizes) if total <= 8 else X.make_envs(sizes, rng, 12)
-        items.append({"t": "range", "a": ja, "ivs": ivs + [[[1], [0]]], "envs": [X.env_json(v, sizes) for v in envs]})
+        items.append({"t": "range", "a": ja, "ivs": ivs + [[X.ibytes(1, e.size), X.ibytes(0, e.size)]], "envs": [X.env_json(v, sizes) for v in envs]})
         meta.append(("range", e, envs, ivs_of(r) if raised is None else "raised " + raised))
     verdicts = X.judge(ctx, items, label="c10", chunk=8000)
     counts = {}
